@@ -707,6 +707,7 @@ def write_evidence(path, prop, tier, seed, t0, cover, fn_list, samples, trusted,
                          "obligations of its body) of the real functions tagged with this property, spec-level lemmas, and CBMC checks of the "
                          "complete Kani harnesses. Bounded Kani stand-ins are listed under bounded_checks and not counted."),
             functions_under_contract=fn_list,
+            not_under_contract=registry.GAPS.get(prop, []),
             bounded_checks=cover.get("bounded", []),
             backends=dict(
                 verus=[dict(unit=u["unit"], verified=u["verified"], errors=u["errors"], wall_s=u["time_s"], smt_s=u.get("smt_s", 0.0),
